@@ -231,14 +231,19 @@ CLAIMED["C11"] = dict(
     design="5/C11")
 CLAIMED["C18"] = dict(
     engine="lean+corr_skk",
-    technique="Lean 4 model of the SKK-JISYO grammar and the noun/jinmei/tankan converters with proofs about what a successful parse "
-              "returns and that every emitted line is a storable dictionary line (via C10_entry) + differential run on well-formed, "
-              "odd and arbitrary lines; notes grammar/converter checked on the implementation against a reference semantics",
+    technique="Lean 4 models of the SKK-JISYO grammar, the noun/jinmei/tankan converters and the whole notes grammar + converter "
+              "(dictionary-ending table generated from converter.rs) with proofs about what a successful parse returns, that the "
+              "notes converter never panics on a parsed line, and that every emitted line is a storable dictionary line (via "
+              "C10_entry) + differential run of all five parsers/converters on well-formed, mutated, directed, odd and arbitrary lines",
     text="C18_parse_shape, C18_words_shape, C18_emitted_valid (nouns, propers, single kanji; for candidates without TAB), "
-         "C18_noun_skips_okuri are kernel-checked; all five real parsers/converters are run on generated lines, every emitted "
-         "line is re-read by the real dictionary reader, base verb notes are conjugated and their okuri row checked.",
-    note="PARTIAL: skk-notes-converter (note_grammer.rs, converter.rs) is not modelled in Lean; totality/faithfulness of notes are "
-         "decided by the executable oracle only. One known finding (D13). Axioms: propext, Classical.choice, Quot.sound.",
+         "C18_noun_skips_okuri, C18_notes_parse_shape, C18_notes_no_panic, C18_notes_emitted_valid (stems without blank/TAB), "
+         "C18_notes_faithful are kernel-checked; all five real parsers/converters are run against the models on generated lines "
+         "(notes: 10 reference kinds, structured + mutated lines, a directed table of every class x row x okuri shape x stem "
+         "shape), every emitted line is re-read by the real dictionary reader, base verb notes are conjugated and their okuri row "
+         "checked.",
+    note="The models are hand translations tied by the differential run (the notes ending table is generated); arbitrary-Unicode "
+         "totality of the PEG parsers is checked on the implementation and the model side by side, not proved beyond the model's "
+         "own totality. One known finding (D13), two fixed (D12a, D14). Axioms: propext, Classical.choice, Quot.sound.",
     design="5/C18")
 
 NOT_YET = "machinery for this property is not built yet in this round (work in progress; see DESIGN.md section 9)"
